@@ -54,7 +54,25 @@ func isInvokeOf(cc *ssa.CallCommon, ifaceName, method string) bool {
 	if cc == nil || !cc.IsInvoke() || cc.Method.Name() != method {
 		return false
 	}
-	return ifaceName == "" || recvTypeName(cc.Value.Type()) == ifaceName
+	if ifaceName == "" || recvTypeName(cc.Value.Type()) == ifaceName {
+		return true
+	}
+	// a narrower module-local view of the named interface (an unexported interface listing some of its methods,
+	// holding the very same value) is the same call
+	vt, ok := cc.Value.Type().(*types.Named)
+	if !ok || vt.Obj().Pkg() == nil || !strings.HasPrefix(vt.Obj().Pkg().Path(), modPath) {
+		return false
+	}
+	vi, ok := vt.Underlying().(*types.Interface)
+	if !ok || vi.NumMethods() == 0 {
+		return false
+	}
+	for _, nt := range moduleIfaces[ifaceName] {
+		if types.Implements(nt, vi) {
+			return true
+		}
+	}
+	return false
 }
 
 // isStaticCall: static callee identified by package-path suffix, receiver type name and name.
@@ -631,6 +649,8 @@ func goLoops(w *World) []*goLoop {
 					gl.ExitConds = append(gl.ExitConds, w.Origin(v))
 					if f := loadedField(v); f != nil {
 						gl.FlagField = append(gl.FlagField, &fieldRef{Owner: fieldOwner(v), Name: f.Name(), Load: v})
+					} else if f, addr := flagRead(v); f != nil {
+						gl.FlagField = append(gl.FlagField, &fieldRef{Owner: fieldOwner(addr), Name: f.Name(), Load: v})
 					}
 				}
 				for _, x := range b.Instrs {
@@ -645,4 +665,44 @@ func goLoops(w *World) []*goLoop {
 		})
 	}
 	return out
+}
+
+// ---------------------------------------------------------------------------------------------
+// boolean flags: a plain bool field or a sync/atomic.Bool field, read by a load / x.Load() and written by a
+// store / x.Store(v). Rules about flags use these two views so that making a flag atomic changes nothing.
+
+// flagRead: the field read by v when v is `x.f` (bool) or `x.f.Load()` (atomic.Bool), with the address read.
+func flagRead(v ssa.Value) (*types.Var, ssa.Value) {
+	switch x := v.(type) {
+	case *ssa.UnOp:
+		if x.Op == token.MUL {
+			if f := fieldOfAddr(x.X); f != nil && isBool(f.Type()) {
+				return f, x.X
+			}
+		}
+	case *ssa.Call:
+		if k, m := atomicMethod(x.Common().StaticCallee()); k == "Bool" && m == "Load" && len(x.Common().Args) == 1 {
+			if f := fieldOfAddr(x.Common().Args[0]); f != nil {
+				return f, x.Common().Args[0]
+			}
+		}
+	}
+	return nil, nil
+}
+
+// flagWrite: the field written by in (`x.f = v` or `x.f.Store(v)`), the address and the value.
+func flagWrite(in ssa.Instruction) (*types.Var, ssa.Value, ssa.Value) {
+	switch x := in.(type) {
+	case *ssa.Store:
+		if f := fieldOfAddr(x.Addr); f != nil && isBool(f.Type()) {
+			return f, x.Addr, x.Val
+		}
+	case *ssa.Call:
+		if k, m := atomicMethod(x.Common().StaticCallee()); k == "Bool" && m == "Store" && len(x.Common().Args) == 2 {
+			if f := fieldOfAddr(x.Common().Args[0]); f != nil {
+				return f, x.Common().Args[0], x.Common().Args[1]
+			}
+		}
+	}
+	return nil, nil, nil
 }
